@@ -12,6 +12,8 @@ NEUTRALS = [{'name': 'voice offset with augmented assignment', 'file': 'partitur
 
 # changes made by sub-agents that were given only the property text (see /verif/seeded/<id>/): each must stay reported
 SEEDED = [
+    {'name': 'seeded change C15-r5b', 'seed': 'C15-r5b', 'expect': '|PARTS-all|'},
+    {'name': 'seeded change C15-r5a', 'seed': 'C15-r5a', 'expect': '|IDENTITY-hash|'},
     {'name': 'seeded change C15-r3', 'seed': 'C15-r3', 'expect': '|ZIP-PAR|'},
     {'name': 'seeded change C15-r2', 'seed': 'C15-r2', 'expect': '|FLAT-all|'},
     {'name': 'seeded change C15', 'seed': 'C15', 'expect': '|OFFSET-src|'},
